@@ -507,6 +507,63 @@ impl<'a> VisitMut for HofPass<'a> {
         // (option `optmap`: every `.map(..)` in this function is Option::map)
         // E.map(|p| B) ==> match E { Some(p) => Some(B), None => None };  E.map(Ctor) ==> match E { Some(v) => Some(Ctor(v)), None => None }
         if self.optmap {
+            // E.or_else(|| B) ==> match E { Some(v) => Some(v), None => B }
+            if let Expr::MethodCall(mc) = e {
+                if mc.method == "or_else" && mc.args.len() == 1 {
+                    if let Expr::Closure(cl) = &mc.args[0] {
+                        if cl.inputs.is_empty() {
+                            let recv = &mc.receiver;
+                            let body = &cl.body;
+                            self.counter += 1;
+                            let v = quote::format_ident!("__fjx_v{}", self.counter);
+                            let new: Expr = parse_quote! { match (#recv) { Some(#v) => Some(#v), None => #body } };
+                            self.log.push("R-HOF Option::or_else beta-reduced".into());
+                            *e = new;
+                        }
+                    }
+                }
+            }
+            // E.and_then(|p| B) ==> match E { Some(p) => B, None => None };  E.is_some_and(|p| B) ==> match E { Some(p) => B, None => false }
+            if let Expr::MethodCall(mc) = e {
+                if (mc.method == "and_then" || mc.method == "is_some_and") && mc.args.len() == 1 {
+                    if let Expr::Closure(cl) = &mc.args[0] {
+                        if cl.inputs.len() == 1 {
+                            let recv = &mc.receiver;
+                            let pat = &cl.inputs[0];
+                            let mut body = (*cl.body).clone();
+                            // `f(args)` on the closure parameter (a `dyn Fn` value) is Fn::call
+                            if let syn::Pat::Ident(pi) = pat {
+                                struct CallParam<'a> {
+                                    name: &'a proc_macro2::Ident,
+                                }
+                                impl<'a> VisitMut for CallParam<'a> {
+                                    fn visit_expr_mut(&mut self, e: &mut Expr) {
+                                        visit_mut::visit_expr_mut(self, e);
+                                        if let Expr::Call(c) = e {
+                                            if let Expr::Path(p) = &*c.func {
+                                                if p.path.is_ident(self.name) {
+                                                    let f = &c.func;
+                                                    let args = &c.args;
+                                                    *e = parse_quote! { #f.call(#args) };
+                                                }
+                                            }
+                                        }
+                                    }
+                                }
+                                CallParam { name: &pi.ident }.visit_expr_mut(&mut body);
+                            }
+                            let body = &body;
+                            let new: Expr = if mc.method == "and_then" {
+                                parse_quote! { match (#recv) { Some(#pat) => #body, None => None } }
+                            } else {
+                                parse_quote! { match (#recv) { Some(#pat) => #body, None => false } }
+                            };
+                            self.log.push(format!("R-HOF Option::{} beta-reduced", mc.method));
+                            *e = new;
+                        }
+                    }
+                }
+            }
             if let Expr::MethodCall(mc) = e {
                 if mc.method == "map" && mc.args.len() == 1 {
                     let recv = &mc.receiver;
@@ -1012,6 +1069,7 @@ impl<'a> VisitMut for WorldPass<'a> {
 struct ForDesugar<'a> {
     n: usize,
     which: &'a [usize],
+    plain: &'a [usize],
     log: &'a mut Vec<String>,
 }
 impl<'a> VisitMut for ForDesugar<'a> {
@@ -1031,9 +1089,13 @@ impl<'a> VisitMut for ForDesugar<'a> {
                 visit_mut::visit_block_mut(self, &mut body);
                 let stmts = &body.stmts;
                 let id = syn::Index::from(idx);
+                // `plain`: E is itself the iterator (IntoIterator for I: Iterator is the identity)
+                let src = quote::format_ident!("__fjx_src{}", idx);
+                let init: Expr = if self.plain.contains(&idx) { parse_quote! { #src } } else { parse_quote! { IntoIterator::into_iter(#src) } };
                 let new: Expr = parse_quote! {
                     {
-                        let mut #it = IntoIterator::into_iter(#ex);
+                        let #src = #ex;
+                        let mut #it = #init;
                         __fjx_ghost_decl!(#id);
                         loop {
                             let #pat = match #it.next() { Some(__fjx_x) => __fjx_x, None => break, };
@@ -1275,8 +1337,13 @@ struct ExtractSpec {
     contract_file: Option<String>,
     until: Option<String>,
     desugar_for: Vec<usize>,
+    desugar_for_plain: Vec<usize>,
     optmap: bool,
     assoc: Vec<(String, String)>,
+    stmt_anchor: Option<String>,
+    anchor_up: usize,
+    sig_text: Option<String>,
+    yield_ident: Option<String>,
     iter_args: Vec<(String, usize)>,
 }
 
@@ -1288,6 +1355,8 @@ struct Unit {
     broadcast: String,
     macros: Vec<(String, String, TokenStream)>,
     guards: Vec<String>,
+    pure_names: Vec<String>,
+    type_map: Vec<(String, String)>,
     files: BTreeMap<String, (String, syn::File)>,
     out: String,
     report: Vec<String>,
@@ -1402,8 +1471,68 @@ impl Unit {
     }
 
     fn extract(&mut self, spec: &ExtractSpec) {
-        let found = self.find_fn(spec);
+        let mut found = self.find_fn(spec);
         let mut log: Vec<String> = vec![];
+        // R-SLICE (statement form): one statement of a large function, verified as a function of its free variables
+        if let Some(needle) = &spec.stmt_anchor {
+            use syn::spanned::Spanned;
+            struct Finder<'a> {
+                needle: &'a str,
+                cands: Vec<(usize, Stmt)>,
+            }
+            impl<'a, 'ast> syn::visit::Visit<'ast> for Finder<'a> {
+                fn visit_block(&mut self, b: &'ast syn::Block) {
+                    for st in &b.stmts {
+                        let t = tok(st);
+                        if t.contains(self.needle) {
+                            self.cands.push((t.len(), st.clone()));
+                        }
+                    }
+                    syn::visit::visit_block(self, b);
+                }
+            }
+            let n = nospace(needle);
+            let mut f = Finder { needle: &n, cands: vec![] };
+            syn::visit::Visit::visit_block(&mut f, &found.block);
+            f.cands.sort_by_key(|c| c.0);
+            if f.cands.is_empty() || (f.cands.len() > 1 && f.cands[0].0 == f.cands[1].0) {
+                die(&format!("lost anchor: statement anchor `{needle}` in {}::{} matched {} innermost statements", spec.file, spec.name, f.cands.len()));
+            }
+            let inner_s = tok(&f.cands[0].1);
+            for c in &f.cands[1..] {
+                if !tok(&c.1).contains(&inner_s) {
+                    die(&format!("lost anchor: statement anchor `{needle}` in {}::{} is ambiguous", spec.file, spec.name));
+                }
+            }
+            if spec.anchor_up >= f.cands.len() {
+                die(&format!("lost anchor: //@anchor-up {} but only {} enclosing statements", spec.anchor_up, f.cands.len()));
+            }
+            let stmt = f.cands[spec.anchor_up].1.clone();
+            let sp = stmt.span();
+            let sig_text = spec.sig_text.as_ref().unwrap_or_else(|| die("extract with //@anchor needs //@sig"));
+            let item: syn::ItemFn = syn::parse_str(&format!("{sig_text} {{}}")).unwrap_or_else(|e| die(&format!("cannot parse //@sig: {e}")));
+            let mut block: syn::Block = parse_quote! { { #stmt } };
+            match &spec.yield_ident {
+                Some(y) => {
+                    let ye: Expr = syn::parse_str(y).unwrap_or_else(|_| die("cannot parse //@yield expression"));
+                    block.stmts.push(Stmt::Expr(ye, None));
+                }
+                None => block.stmts.push(Stmt::Expr(parse_quote! { shim_slice_end() }, None)),
+            }
+            log.push(format!(
+                "R-SLICE statement `{}` of {}::{} (lines {}-{}) verified as a function of its free variables (signature from the unit file); the rest of the enclosing function is NOT under contract here",
+                needle, spec.file, spec.name, sp.start().line, sp.end().line
+            ));
+            found.start_line = sp.start().line;
+            found.end_line = sp.end().line;
+            found.sig = item.sig;
+            found.vis = parse_quote! { pub };
+            found.attrs = vec![];
+            found.block = block;
+            found.impl_header = None;
+            found.assoc_types = vec![];
+            found.other_items = vec![];
+        }
         let src_tokens = {
             let sig = &found.sig;
             let block = &found.block;
@@ -1476,9 +1605,11 @@ impl Unit {
         if spec.world {
             pats.extend(self.auto_world_patterns());
         }
+        // names whose calls may not be dropped with a log statement; reads declared `//@pure` (ghost world unchanged) are fine
         let effect_names: Vec<String> = pats
             .iter()
             .map(|p| p.rsplit_once('.').map(|x| x.1.to_string()).unwrap_or(p.clone()))
+            .filter(|n| !self.pure_names.contains(n))
             .collect();
 
         // R-CFG
@@ -1611,6 +1742,13 @@ impl Unit {
             }
             IterArg { table: &spec.iter_args, log: &mut log }.visit_block_mut(&mut block);
         }
+        // R-FOR (before R-WORLD, so that the generated `.next()` calls can receive the ghost world)
+        if !spec.desugar_for.is_empty() || !spec.desugar_for_plain.is_empty() {
+            let mut all = spec.desugar_for.clone();
+            all.extend(spec.desugar_for_plain.iter().cloned());
+            let mut fd = ForDesugar { n: 0, which: &all, plain: &spec.desugar_for_plain, log: &mut log };
+            fd.visit_block_mut(&mut block);
+        }
         // R-TRAIT: Self::Assoc -> definition when a trait method is emitted as an inherent method
         let mut assoc_types = found.assoc_types.clone();
         for (a, t) in &spec.assoc {
@@ -1640,6 +1778,29 @@ impl Unit {
             let mut a = Assoc { tys: &assoc_types, log: &mut log };
             a.visit_signature_mut(&mut sig);
             a.visit_block_mut(&mut block);
+        }
+        // R-TYPE: whole-type renaming to a shim type (names only, like R-PATH; for types R-PATH cannot express, e.g. Arc<dyn Trait>)
+        if !self.type_map.is_empty() {
+            struct TypeMap<'a> {
+                map: &'a [(String, String)],
+                log: &'a mut Vec<String>,
+            }
+            impl<'a> VisitMut for TypeMap<'a> {
+                fn visit_type_mut(&mut self, t: &mut syn::Type) {
+                    let s = tok(t);
+                    for (from, to) in self.map {
+                        if s == *from {
+                            *t = syn::parse_str(to).unwrap_or_else(|_| die("R-TYPE: cannot parse target type"));
+                            self.log.push(format!("R-TYPE {from} => {to}"));
+                            return;
+                        }
+                    }
+                    visit_mut::visit_type_mut(self, t);
+                }
+            }
+            let mut tm = TypeMap { map: &self.type_map, log: &mut log };
+            tm.visit_signature_mut(&mut sig);
+            tm.visit_block_mut(&mut block);
         }
         // R-PATH
         {
@@ -1676,13 +1837,8 @@ impl Unit {
             block = parse_quote! { { unimplemented!() } };
             log.push("SPEC-ONLY: body not verified here (declaration with the contract proved in another unit)".into());
         }
-        // R-FOR
-        if !spec.desugar_for.is_empty() {
-            let mut fd = ForDesugar { n: 0, which: &spec.desugar_for, log: &mut log };
-            fd.visit_block_mut(&mut block);
-        }
         // markers
-        let mut lm = LoopMarker { n: 0, with_binder: spec.loops.keys().cloned().collect(), desugared: spec.desugar_for.clone() };
+        let mut lm = LoopMarker { n: 0, with_binder: spec.loops.keys().cloned().collect(), desugared: spec.desugar_for.iter().chain(spec.desugar_for_plain.iter()).cloned().collect() };
         lm.visit_block_mut(&mut block);
         let n_loops = lm.n;
         for k in spec.loops.keys() {
@@ -1793,7 +1949,7 @@ impl Unit {
             }
         };
         // ghost iteration counters of R-FOR loops (number of items taken so far)
-        for idx in &spec.desugar_for {
+        for idx in spec.desugar_for.iter().chain(spec.desugar_for_plain.iter()) {
             text = text.replace(&format!("__fjx_ghost_decl!({idx});"), &format!("let ghost mut __fjx_n{idx}: int = 0;"));
             text = text.replace(&format!("__fjx_ghost_inc!({idx});"), &format!("proof {{ __fjx_n{idx} = __fjx_n{idx} + 1; }}"));
         }
@@ -2224,6 +2380,13 @@ impl Unit {
                         }
                         self.register_macro(parts[0].trim(), parts[1].trim());
                     }
+                    "type" => {
+                        let (a, b) = rest.split_once("=>").unwrap_or_else(|| die("bad //@type"));
+                        self.type_map.push((nospace(a), b.trim().to_string()));
+                    }
+                    "pure" => {
+                        self.pure_names.extend(rest.split_whitespace().map(|s| s.to_string()));
+                    }
                     "guards" => {
                         self.guards.extend(rest.split_whitespace().map(|s| s.to_string()));
                     }
@@ -2326,6 +2489,8 @@ impl Unit {
                             } else if let Some(n) = o.strip_prefix("iter_arg=") {
                                 let (m, k) = n.split_once(':').unwrap_or_else(|| die("bad iter_arg"));
                                 spec.iter_args.push((m.to_string(), k.parse().unwrap_or_else(|_| die("bad iter_arg index"))))
+                            } else if let Some(n) = o.strip_prefix("desugar_for_plain=") {
+                                spec.desugar_for_plain = n.split(',').map(|x| x.parse().unwrap_or_else(|_| die("bad desugar_for_plain"))).collect();
                             } else if let Some(n) = o.strip_prefix("desugar_for=") {
                                 spec.desugar_for = n.split(',').map(|x| x.parse().unwrap_or_else(|_| die("bad desugar_for"))).collect();
                             } else if let Some(n) = o.strip_prefix("assoc=") {
@@ -2363,6 +2528,10 @@ impl Unit {
                                 match cmd {
                                     "end" => break,
                                     "contract" => sec = Sec::Contract,
+                                    "anchor" => spec.stmt_anchor = Some(rest.to_string()),
+                                    "anchor-up" => spec.anchor_up = rest.parse().unwrap_or_else(|_| die("bad //@anchor-up")),
+                                    "sig" => spec.sig_text = Some(rest.to_string()),
+                                    "yield" => spec.yield_ident = Some(rest.to_string()),
                                     "contract-file" => {
                                         let p = self.contracts.join(rest);
                                         let t = std::fs::read_to_string(&p).unwrap_or_else(|_| die(&format!("cannot read contract file {rest}")));
@@ -2429,6 +2598,8 @@ fn main() {
         broadcast: String::new(),
         macros: vec![],
         guards: vec![],
+        pure_names: vec![],
+        type_map: vec![],
         files: BTreeMap::new(),
         out: String::new(),
         report: vec![],
